@@ -7,7 +7,8 @@ import ast
 from ..cfg import Oracle, build_cfg
 from ..index import AnalysisError, UNKNOWN, norm, unparse
 from ..report import Ctx
-from ..util import Facts, LockSets, callee_attr, calls_in_node, cfg_nodes_with_call, feasible_paths, lexical_locks
+from ..terms import const, evaluator, mentions, show
+from ..util import Facts, LockSets, callee_attr, calls_in_node, cfg_nodes_with_call, feasible_paths, lexical_locks, xtext
 
 IDLOCK = "Group._autoidlock"
 
@@ -29,28 +30,141 @@ def check_explicit_id(ctx: Ctx, oid: str) -> None:
             if not ok:
                 ob.violation(fm, cr.ast, "a process / connection is created before the gateway id has been checked: a rejected makegateway leaves a child behind")
         # allocate_id: every normal exit has established `<id> not in self`
-        ca = build_cfg(repo, fa, Oracle(repo, fa, precise=True))
-        k = 0
-        for explicit in (False, True):
-            base = Facts(repo, fa, {})
-            base.set_atom("spec.id is None", not explicit)
-            for path, facts in feasible_paths(repo, fa, ca, base, kill_on_store=False):
-                if path[-1][0] != ca.exit.id:
-                    continue
-                k += 1
-                key = "spec.id in self" if explicit else "id in self"
-                ok = facts.get(key) is False
-                ob.site(fa, fa.node, f"allocate_id ({'explicit' if explicit else 'auto'} id): normal exit only after `{key}` tested false", ok=ok)
-                if not ok:
-                    ob.violation(fa, fa.node, f"allocate_id returns for an {'explicit' if explicit else 'automatic'} id without a uniqueness test raising on a taken id "
-                                              "(the clash is only noticed by _register's assert, after the child process exists)",
-                                 construct=f"allocate_id {'explicit' if explicit else 'auto'} unchecked", path=ca.describe_path(path))
-        ob.require(k >= 2, "allocate_id: no normal paths")
-        for t in ca.nodes:
-            if t.kind == "test" and unparse(t.ast).endswith(" in self"):
-                tru = [ca.nodes[m] for (m, l) in ca.succ[t.id] if l == "true"]
-                if not (tru and all(isinstance(x.ast, ast.Raise) and unparse(x.ast.exc).startswith("ValueError") for x in tru)):
-                    ob.violation(fa, t.ast, "a taken id is not rejected with ValueError")
+        ev = evaluator(repo, fa)
+        ca = ev.cfg
+        spec = fa.params()[1]
+        specid = ("sym", f"{spec}.id")
+        SELF = ("sym", "self")
+        k = {"auto": 0, "explicit": 0}
+        for path, st in ev.run():
+            end = ca.nodes[path[-1][0]]
+            taken = [t for (t, v) in st.cond if v is True and t[0] == "cmp" and t[1] == "in" and t[3] == SELF]
+            if taken:
+                rs = [e for e in st.events if e.kind == "raise"]
+                if not (end.kind == "raise" and rs and _is_exc(rs[-1].value, "ValueError")):
+                    ob.violation(fa, fa.node, "a taken id is not rejected with ValueError", construct="taken id accepted")
+                continue
+            if end.kind != "return":
+                continue
+            stores = [e for e in st.events if e.kind == "assign" and e.target == f"{spec}.id"]
+            kind = "auto" if stores else "explicit"
+            if kind == "explicit" and (("cmp", "is", specid, ("const", None)), True) in st.cond:
+                # an id-less spec leaves without an id: nothing to check here (C20.d requires the auto id)
+                ob.violation(fa, fa.node, "allocate_id returns without assigning an id to an id-less spec", construct="no id assigned")
+                continue
+            k[kind] += 1
+            idt = stores[-1].value if stores else specid
+            ok = (("cmp", "in", idt, SELF), False) in st.cond
+            ob.site(fa, fa.node, f"allocate_id ({kind} id): normal exit only after `{show(idt)} in self` tested false", ok=ok)
+            if not ok:
+                ob.violation(fa, fa.node, f"allocate_id returns for an {'explicit' if kind == 'explicit' else 'automatic'} id without a uniqueness test raising on a taken id "
+                                          "(the clash is only noticed by _register's assert, after the child process exists)",
+                             construct=f"allocate_id {kind} unchecked", path=ca.describe_path(path))
+        ob.require(k["auto"] >= 1 and k["explicit"] >= 1, f"allocate_id: normal paths found: {k}")
+
+
+def _containers(kind: str):
+    if kind == "attr":
+        return [("sym", "self.__dict__"), ("pcall", "vars", (("sym", "self"),), ())]
+    return [("sym", "self.env")]
+
+
+def _is_exc(t, name: str) -> bool:
+    return isinstance(t, tuple) and ((t[0] == "fresh" and t[2] == name) or (t[0] == "pcall" and t[1] == name))
+
+
+def _idx(item):
+    return ("pcall", ("meth", item, "find"), (const("="),), ())
+
+
+def _part(item):
+    return ("pcall", ("meth", item, "partition"), (const("="),), ())
+
+
+def _split1(item):
+    return ("pcall", ("meth", item, "split"), (const("="), const(1)), ())
+
+
+def _has_eq(cond, item):
+    """what the path condition says about the presence of '=' in the element: True / False / None / 'conflict'"""
+    out = set()
+    IDX, P, S = _idx(item), _part(item), _split1(item)
+    for (t, v) in cond:
+        r = None
+        if t[0] == "cmp" and t[2] in (IDX, ("pcall", ("meth", item, "index"), (const("="),), ())) and t[3][0] == "const" and isinstance(t[3][1], int):
+            c, op = t[3][1], t[1]
+            r = {("eq", -1): False, ("lt", 0): False, ("le", -1): False, ("ge", 0): True, ("gt", -1): True}.get((op, c))
+        elif t == ("idx", P, const(1)):
+            r = True
+        elif t[0] == "cmp" and t[1] == "eq" and t[2] == ("idx", P, const(1)) and t[3] in (const(""), const("=")):
+            r = t[3] == const("=")
+        elif t[0] == "cmp" and t[1] == "in" and t[2] == const("=") and t[3] == item:
+            r = True
+        elif t[0] == "cmp" and t[2] == ("pcall", "len", (S,), ()) and t[3][0] == "const":
+            r = {("eq", 1): False, ("eq", 2): True, ("lt", 2): False, ("gt", 1): True, ("ge", 2): True, ("le", 1): False}.get((t[1], t[3][1]))
+        if r is not None:
+            out.add(r == v)
+    if len(out) == 2:
+        return "conflict"
+    return out.pop() if out else None
+
+
+def _classify_key(K, item) -> str:
+    if K == item:
+        return "WHOLE"
+    if K == ("slice", item, None, _idx(item)):
+        return "PRE"
+    if K in (("idx", _part(item), const(0)), ("idx", _split1(item), const(0))):
+        return "PRESTAR"
+    return "OTHER"
+
+
+def _classify_val(V, item) -> str:
+    if V == const(True):
+        return "TRUE"
+    if V == ("slice", item, ("bin", "Add", _idx(item), const(1)), None) or V == ("idx", _split1(item), const(1)):
+        return "POST"
+    if V == ("idx", _part(item), const(2)):
+        return "POSTSTAR"
+    return "OTHER"
+
+
+def _spec_paths(repo, fx):
+    """every feasible path once round the key/value loop of XSpec.__init__, with the stores it performs"""
+    ev = evaluator(repo, fx)
+    cfg = ev.cfg
+    heads = [n for n in cfg.nodes if n.kind == "for" and n.id in cfg.live()]
+    if len(heads) != 1:
+        raise AnalysisError("XSpec.__init__: key/value loop not found")
+    head = heads[0]
+    out = {"stores": [], "dup_true": [], "und_true": [], "nstores": {}, "cfg": cfg, "iter": None, "item": None}
+    for path, st in ev.run(back_stops={head.id}):
+        if not any(nid == head.id for (nid, _l) in path[:-1]):
+            continue
+        item = next((e.value for e in st.events if e.kind == "assign" and e.value[0] == "elem" and e.value[2] == head.id), None)
+        if item is None:
+            continue
+        out["item"] = item
+        out["iter"] = item[1]
+        for e in st.events:
+            K = V = None
+            if e.kind == "call" and e.callee == "setattr" and len(e.args) == 3 and e.args[0] == ("sym", "self"):
+                kind, K, V = "attr", e.args[1], e.args[2]
+            elif e.kind == "store" and e.recv in (("sym", "self.env"), st.env.get("self.env")):
+                kind, K, V = "env", e.key, e.value
+            elif e.kind == "store" and e.recv in (("sym", "self.__dict__"), ("pcall", "vars", (("sym", "self"),), ())):
+                kind, K, V = "attr", e.key, e.value
+            if K is not None:
+                out["stores"].append((kind, e, K, V, st.cond[:e.ncond], st))
+                out["nstores"][kind] = out["nstores"].get(kind, 0) + 1
+        dups = [t for (t, v) in st.cond if v is True and t[0] == "cmp" and t[1] == "in" and t[3] in _containers("attr") + _containers("env") + [st.env.get("self.env")]]
+        if dups:
+            out["dup_true"].append((path, st, [fx.node]))
+        unds = [t for (t, v) in st.cond if v is True and ((t[0] == "cmp" and t[1] == "eq" and t[2][0] == "idx" and t[2][2] == const(0) and t[3] == const("_"))
+                                                         or (t[0] == "pcall" and isinstance(t[1], tuple) and t[1][0] == "meth" and t[1][2] == "startswith" and t[2] == (const("_"),)))]
+        if unds:
+            out["und_true"].append((path, st, unds[0]))
+    return out
 
 
 def check(ctx: Ctx) -> None:
@@ -61,34 +175,22 @@ def check(ctx: Ctx) -> None:
                    "exists; the container protocol methods read one list.")
     ctx.not_decided = "all strings over the alphabet are not enumerated (the claim follows from the split shape)."
     fx = repo.func("xspec.XSpec.__init__")
-    cfg = build_cfg(repo, fx, Oracle(repo, fx, precise=True))
+    sp = _spec_paths(repo, fx)
 
     with ctx.obligation("C20.a", "dup-store-agree") as ob:
-        stores = []
-        for nd in cfg.nodes:
-            if nd.ast is None or nd.id not in cfg.live() or nd.kind != "stmt":
-                continue
-            for c in calls_in_node(nd):
-                if isinstance(c.func, ast.Name) and c.func.id == "setattr" and unparse(c.args[0]) == "self":
-                    stores.append((nd, "self.__dict__", unparse(c.args[1])))
-            if isinstance(nd.ast, ast.Assign) and isinstance(nd.ast.targets[0], ast.Subscript) and unparse(nd.ast.targets[0].value).startswith("self."):
-                stores.append((nd, unparse(nd.ast.targets[0].value), unparse(nd.ast.targets[0].slice)))
-        ob.require(len(stores) >= 2, f"{len(stores)} key stores in XSpec.__init__ (floor 2)")
-        for nd, container, key in stores:
-            f = Facts(repo, fx, {})
-            raising = False
-            for (t, lab) in cfg.guards(nd.id):
-                if t.kind != "test":
-                    continue
-                g = Facts(repo, fx, {})
-                g.assume(t.ast, lab == "true")
-                if g.get(f"{key} in {container}") is False:
-                    other = [cfg.nodes[m] for (m, l) in cfg.succ[t.id] if l != lab and l in ("true", "false")]
-                    if other and all(isinstance(x.ast, ast.Raise) and unparse(x.ast.exc).startswith("ValueError") for x in other):
-                        raising = True
-            ob.site(fx, nd.ast, f"store into {container} guarded by `{key} in {container}` raising ValueError", ok=raising)
-            if not raising:
-                ob.violation(fx, nd.ast, f"the key is stored in {container} but no dominating duplicate test consults {container}: a repeated key of this kind is accepted silently")
+        ob.require(sp["nstores"].get("attr", 0) >= 1 and sp["nstores"].get("env", 0) >= 1, f"key stores in XSpec.__init__: {sp['nstores']} (floor: one attribute store, one env store)")
+        for (kind, ev, K, V, cond, st) in sp["stores"]:
+            containers = _containers(kind) + ([st.env["self.env"]] if kind == "env" and "self.env" in st.env else [])
+            tested = any(t[0] == "cmp" and t[1] == "in" and t[3] in containers and v is False and t[2] == K for (t, v) in cond)
+            ob.site(fx, ev.node, f"{kind} store of key {show(K)} only after `key in {show(containers[0])}` tested false", ok=tested)
+            if not tested:
+                ob.violation(fx, ev.node, f"the key is stored in {show(containers[0])} but no dominating duplicate test consults {show(containers[0])}: a repeated key of this kind is accepted silently",
+                             construct=f"{kind} store without duplicate test")
+        for (path, st, dups) in sp["dup_true"]:
+            last = [e for e in st.events if e.kind == "raise"]
+            ok = sp["cfg"].nodes[path[-1][0]].kind == "raise" and last and _is_exc(last[-1].value, "ValueError")
+            if not ok:
+                ob.violation(fx, dups[0], "a repeated key is not rejected with ValueError", construct="duplicate key accepted")
 
     with ctx.obligation("C20.b", "text-identity") as ob:
         want = {"__eq__": ast.Eq, "__ne__": ast.NotEq}
@@ -115,64 +217,61 @@ def check(ctx: Ctx) -> None:
             ob.violation(fx, fx.node, "the spec text is not stored unmodified")
 
     with ctx.obligation("C20.c", "split") as ob:
-        loops = [n for n in repo.own_nodes(fx) if isinstance(n, ast.For)]
-        ob.require(len(loops) == 1, "key/value loop not found")
-        lp = loops[0]
-        kv = unparse(lp.target)
-        ob.site(fx, lp, "split on '//'", iter=unparse(lp.iter))
-        if unparse(lp.iter) != f"{fx.params()[1]}.split('//')":
-            ob.violation(fx, lp, "the spec is not split on '//'")
-        finds = [n for n in repo.own_nodes(fx) if isinstance(n, ast.Assign) and isinstance(n.value, ast.Call) and callee_attr(n.value) in ("find", "index", "partition")]
-        ob.require(len(finds) == 1, "search for the first '=' not found")
-        fc = finds[0].value
-        iv = unparse(finds[0].targets[0])
-        if callee_attr(fc) != "find" or unparse(fc.func.value) != kv or [repo.fold_in(a, fx) for a in fc.args] != ["="]:
-            ob.violation(fx, finds[0], "the key/value separator is not the first '=' of the element (str.find('='))")
-        slices = [n for n in repo.own_nodes(fx) if isinstance(n, ast.Subscript) and unparse(n.value) == kv and isinstance(n.slice, ast.Slice)]
-        texts = sorted(unparse(s) for s in slices)
-        ob.site(fx, slices[0] if slices else fx.node, "key and value are complementary slices around the separator", slices=texts)
-        if texts != sorted([f"{kv}[:{iv}]", f"{kv}[{iv} + 1:]"]):
-            ob.violation(fx, slices[0] if slices else fx.node, f"key/value slices {texts} are not `{kv}[:{iv}]` and `{kv}[{iv} + 1:]`: characters are lost or duplicated")
-        else:
-            asg = repo.parent(repo.parent(slices[0]))
-            if not (isinstance(asg, ast.Assign) and [unparse(e) for e in asg.value.elts] == [f"{kv}[:{iv}]", f"{kv}[{iv} + 1:]"] and [unparse(e) for e in asg.targets[0].elts] == ["key", "value"]):
-                ob.violation(fx, asg, "key and value slices are assigned in the wrong roles")
-        # bare key -> True
-        for nd in cfg.nodes:
-            if isinstance(nd.ast, ast.Assign) and isinstance(nd.ast.value, ast.Tuple) and unparse(nd.ast.value.elts[0]) == kv and nd.id in cfg.live():
-                f = Facts(repo, fx, {})
-                for (t, lab) in cfg.guards(nd.id):
-                    if t.kind == "test":
-                        f.assume(t.ast, lab == "true")
-                ok = f.get(f"{iv} == -1") is True and repo.fold_in(nd.ast.value.elts[1], fx) is True
-                ob.site(fx, nd.ast, "bare key gets the value True when no '=' is present", ok=ok)
-                if not ok:
-                    ob.violation(fx, nd.ast, "a bare key is not mapped to True exactly when no '=' is present")
-        und = [t for t in cfg.nodes if t.kind == "test" and unparse(t.ast) in ("key[0] == '_'", "key.startswith('_')")]
-        ok = bool(und) and all(isinstance(cfg.nodes[m].ast, ast.Raise) for t in und for (m, l) in cfg.succ[t.id] if l == "true")
-        ob.site(fx, und[0].ast if und else fx.node, "keys starting with '_' are rejected", ok=ok)
-        if not ok:
-            ob.violation(fx, fx.node, "keys starting with an underscore are not rejected", construct="no underscore test")
-        elif not all(cfg.dominated_by(nd.id, und[0].id) for nd, _c, _k in [(n, 0, 0) for n in cfg.nodes if n.kind == "stmt" and n.ast is not None and any(isinstance(c.func, ast.Name) and c.func.id == "setattr" for c in calls_in_node(n))]):
-            ob.violation(fx, und[0].ast, "the underscore test does not precede the attribute store")
+        it = sp["iter"]
+        ob.site(fx, fx.node, "split on '//'", iter=show(it) if it else None)
+        if it != ("pcall", f"{fx.params()[1]}.split", (const("//"),), ()):
+            ob.violation(fx, fx.node, "the spec is not split on '//'")
+        n_has = {True: 0, False: 0}
+        for (kind, ev, K, V, cond, st) in sp["stores"]:
+            item = sp["item"]
+            has = _has_eq(cond, item)
+            k0 = K
+            if kind == "env":
+                envkeys = [t[1][1] for (t, v) in cond if v is True and t[0] == "pcall" and isinstance(t[1], tuple) and t[1][0] == "meth" and t[1][2] == "startswith" and t[2] == (const("env:"),)]
+                if not envkeys or K != ("slice", envkeys[-1], const(4), None):
+                    ob.violation(fx, ev.node, "env: keys are not collected as env[<name after 'env:'>] = value")
+                    if not envkeys:
+                        continue
+                k0 = envkeys[-1]
+            else:
+                pre = ("pcall", ("meth", k0, "startswith"), (const("env:"),), ())
+                if (pre, False) not in cond:
+                    ob.violation(fx, ev.node, "a key starting with 'env:' can be stored as an attribute instead of an environment entry")
+            kc, vc = _classify_key(k0, item), _classify_val(V, item)
+            if has == "conflict":
+                continue
+            ok = (has is True and kc in ("PRE", "PRESTAR") and vc in ("POST", "POSTSTAR")) or (has is False and kc in ("WHOLE", "PRESTAR") and vc == "TRUE")
+            if has in (True, False):
+                n_has[has] += 1
+            ob.site(fx, ev.node, f"{kind} store: '=' {'present' if has else 'absent' if has is False else 'undecided'} -> key {kc}, value {vc}", ok=ok)
+            if has is None:
+                ob.violation(fx, ev.node, "the key/value separator is not the first '=' of the element (no test for the presence of '=' precedes the store)")
+            elif not ok and has is True:
+                ob.violation(fx, ev.node, f"key/value are {show(k0)} / {show(V)}: not the text before / after the first '=': characters are lost or duplicated")
+            elif not ok:
+                ob.violation(fx, ev.node, "a bare key is not mapped to True exactly when no '=' is present")
+            und = [(t, v) for (t, v) in cond if v is False and ((t[0] == "cmp" and t[1] == "eq" and t[2] == ("idx", k0, const(0)) and t[3] == const("_"))
+                                                                  or t == ("pcall", ("meth", k0, "startswith"), (const("_"),), ()))]
+            if not und:
+                ob.violation(fx, ev.node, "keys starting with an underscore are not rejected", construct="no underscore test")
+        ob.require(n_has[True] >= 1 and n_has[False] >= 1, f"store paths with '=' present/absent: {n_has}")
+        for (path, st, t) in sp["und_true"]:
+            if sp["cfg"].nodes[path[-1][0]].kind != "raise":
+                ob.violation(fx, fx.node, "keys starting with an underscore are not rejected", construct="underscore key accepted")
         fg = repo.func("xspec.XSpec.__getattr__")
         rets = [n for n in repo.own_nodes(fg) if isinstance(n, ast.Return)]
         ob.site(fg, fg.node, "absent names read as None")
         if len(rets) != 1 or not (isinstance(rets[0].value, ast.Constant) and rets[0].value.value is None):
             ob.violation(fg, fg.node, "XSpec.__getattr__ does not return None for absent names")
-        envs = [n for n in repo.own_nodes(fx) if isinstance(n, ast.Assign) and isinstance(n.targets[0], ast.Subscript) and unparse(n.targets[0].value) == "self.env"]
-        if envs:
-            pre = [t for t in cfg.nodes if t.kind == "test" and "startswith('env:')" in unparse(t.ast)]
-            if not pre or unparse(envs[0].targets[0].slice) != "key[4:]" or unparse(envs[0].value) != "value":
-                ob.violation(fx, envs[0], "env: keys are not collected as env[<name after 'env:'>] = value")
 
     locks = LockSets(repo)
     fa = repo.func("multi.Group.allocate_id")
     with ctx.obligation("C20.d", "autoid") as ob:
         n = 0
-        for fi in repo.cls("Group").methods.values():
-            if fi.name == "__init__":
+        for fi0 in repo.cls("Group").methods.values():
+            if fi0.name == "__init__":
                 continue
+            fi = repo.func(fi0.qualname)
             for x in repo.own_nodes(fi):
                 if isinstance(x, ast.Attribute) and x.attr == "_autoidcounter":
                     n += 1
@@ -181,16 +280,25 @@ def check(ctx: Ctx) -> None:
                     if IDLOCK not in held:
                         ob.violation(fi, x, "the auto-id counter is accessed outside _autoidlock: concurrent makegateway calls can get the same id")
         ob.require(n >= 2, f"{n} counter accesses (floor 2)")
-        tests = [x for x in repo.own_nodes(fa) if isinstance(x, ast.Compare) and unparse(x) == "id in self"]
+        spec = fa.params()[1]
+        tests = [x for x in repo.own_nodes(fa) if isinstance(x, ast.Compare) and len(x.ops) == 1 and isinstance(x.ops[0], (ast.In, ast.NotIn))
+                 and unparse(x.comparators[0]) == "self" and xtext(repo, fa, x.left) != f"{spec}.id"]
         for t in tests:
             if IDLOCK not in lexical_locks(repo, fa, t):
                 ob.violation(fa, t, "the uniqueness test of an automatic id runs outside the lock")
-        incs = [x for x in repo.own_nodes(fa) if isinstance(x, ast.AugAssign) and unparse(x.target) == "self._autoidcounter"]
-        if len(incs) != 1 or not isinstance(incs[0].op, ast.Add) or repo.fold_in(incs[0].value, fa) != 1:
-            ob.violation(fa, fa.node, "the auto-id counter is not incremented by one per allocation")
-        idb = [x for x in repo.own_nodes(fa) if isinstance(x, ast.Assign) and unparse(x.targets[0]) == "id"]
-        if not idb or "self._autoidcounter" not in unparse(idb[0].value):
-            ob.violation(fa, fa.node, "automatic ids are not derived from the counter")
+        ev = evaluator(repo, fa)
+        CNT = ("sym", "self._autoidcounter")
+        nauto = 0
+        for path, st in ev.run():
+            stores = [e for e in st.events if e.kind == "assign" and e.target == f"{spec}.id"]
+            if ev.cfg.nodes[path[-1][0]].kind != "return" or not stores:
+                continue
+            nauto += 1
+            if st.env.get("self._autoidcounter") not in (("bin", "Add", CNT, const(1)), ("bin", "Add", const(1), CNT)):
+                ob.violation(fa, fa.node, "the auto-id counter is not incremented by one per allocation")
+            if not mentions(stores[-1].value, CNT):
+                ob.violation(fa, fa.node, "automatic ids are not derived from the counter")
+        ob.require(nauto >= 1, "allocate_id: no path assigns an automatic id")
 
     check_explicit_id(ctx, "C20.e")
 
@@ -199,6 +307,7 @@ def check(ctx: Ctx) -> None:
         for name in ("__getitem__", "__len__", "__iter__"):
             m = g.methods.get(name)
             ob.require(m is not None, f"Group.{name} vanished")
+            m = repo.func(m.qualname)
             attrs = {n.attr for n in repo.own_nodes(m) if isinstance(n, ast.Attribute) and unparse(n.value) == "self"}
             ob.site(m, None, f"Group.{name} reads the member list", attrs=sorted(attrs))
             if attrs != {"_gateways"}:
@@ -209,9 +318,11 @@ def check(ctx: Ctx) -> None:
         ob.site(mc, None, "membership is defined through lookup (self[key])")
         if [unparse(s) for s in subs] != ["self[key]"] or attrs:
             ob.violation(mc, mc.node, "Group.__contains__ is not defined through __getitem__")
-        gi = g.methods["__getitem__"]
-        cmp_ = [unparse(n) for n in repo.own_nodes(gi) if isinstance(n, ast.Compare)]
-        if "gw.id == key" not in cmp_:
+        gi = repo.func(g.methods["__getitem__"].qualname)
+        keyp = gi.params()[1]
+        cmp_ = [n for n in ast.walk(gi.node) if isinstance(n, ast.Compare) and len(n.ops) == 1 and isinstance(n.ops[0], ast.Eq)
+                and any(isinstance(a, ast.Attribute) and a.attr == "id" and xtext(repo, gi, b) == keyp for a, b in ((n.left, n.comparators[0]), (n.comparators[0], n.left)))]
+        if not cmp_:
             ob.violation(gi, gi.node, "lookup by id does not compare gateway ids")
         it = g.methods["__iter__"]
         r = [n for n in repo.own_nodes(it) if isinstance(n, ast.Return)]
